@@ -389,3 +389,36 @@ def run(ctx, prog, res):
                      "%s computes `%s %s %s` in %s and %s: with the values the grammar admits (a step or a number up to %d) the result does not fit - a trap in debug builds, a wrapped value in release builds" % (
                          fid, shs[0][:80], op, shs[1][:80], ty, "no bound is known for an operand" if total is None else "the result can reach %d" % total, TYMAX[ty]), lib.where_of(fn, t))
     r6.floor(9)
+
+    # R7 -------------------------------------------------------------------------------------
+    r7 = res.rule("C04.R7", "bounded work whatever the caller's interval-size bound is: the consuming loop of the interval iterator gives up early only after it made progress - the comparison with the bound that leads to the early exit is itself only reached on the true edge of a strict comparison of the cursor with the value it had on entry (a test that does not involve the bound). Without it a negative bound makes the iterator yield the same interval for ever")
+    cu7 = prog.require_fn("opening_hours::opening_hours::TimeDomainIterator::<L>::consume_until_next_kind")
+    BF = "approx_bound_interval_size"
+    n7 = 0
+    for bb, b in cu7.live_blocks():
+        tt = b["term"]
+        if tt["k"] != "switch":
+            continue
+        sh = flow.shape(cu7, tt["op"], depth=6)
+        if BF not in sh or not re.match(r"(PartialOrd::(gt|ge|lt|le)|Gt|Ge|Lt|Le)\(", sh):
+            continue
+        n7 += 1
+        progress = None
+        cur = cu7.blocks[bb]["idom"]
+        while cur is not None and progress is None:
+            t2 = cu7.blocks[cur]["term"]
+            if t2["k"] == "switch":
+                succs = set(cu7.succs(cur))
+                doms = [x for x in succs if cu7.dominates(x, bb)]
+                if len(doms) == 1 and len(succs) > 1:
+                    zero = dict(t2["targets"]).get(0)
+                    true_edge = doms[0] != zero
+                    s2 = flow.shape(cu7, t2["op"], depth=5)
+                    m = re.fullmatch(r"(?:PartialOrd::|PartialEq::)?(gt|lt|ne|Gt|Lt|Ne)\((p1\.curr_date), (p1\.curr_date)\)", s2)
+                    m_eq = re.fullmatch(r"(?:PartialEq::)?(eq|Eq)\((p1\.curr_date), (p1\.curr_date)\)", s2)
+                    if BF not in s2 and ((m and true_edge) or (m_eq and not true_edge)):
+                        progress = s2
+            cur = cu7.blocks[cur]["idom"]
+        r7.check(progress is not None, {"fn": "consume_until_next_kind", "early_exit_test": sh[:140], "only_after": progress}, "C04.R7:progress",
+                 "consume_until_next_kind compares with the caller's bound (%s) and can give up before anything was consumed: with a negative bound (`approx_bound_interval_size(TimeDelta::days(-2))`) the iterator never advances and `iter_range(..).count()` does not terminate" % sh[:160], lib.where_of(cu7, tt))
+    r7.check(n7 >= 1, {"bound_comparisons_in_the_consuming_loop": n7}, "C04.R7:ANCHOR", "ANCHOR: the consuming loop no longer compares with the interval-size bound", lib.where_of(cu7))
